@@ -119,7 +119,7 @@ def stage(profile, worker_prop, scale=1.0, **kw):
 
 PLANS = {
 }
-for _p in ("C01", "C02", "C03", "C05", "C07", "C11", "C13"):
+for _p in ("C01", "C02", "C03", "C04", "C05", "C06", "C07", "C08", "C09", "C11", "C13", "C16"):
     PLANS[_p] = [stage("dbg", _p)]
 
 LEVEL_TEXT = {}
